@@ -74,13 +74,13 @@ Qed.
 (* one topic across a restart: what is unread afterwards is what was unread, preceded by entries
    that had been delivered already, and it is a suffix of the (unchanged) stream *)
 Lemma reopen_unread_lag c s t x nid : cfg_ok c -> DIs c s -> BIs c s -> DLim c s ->
-  TInv c nid (get_ts s t) -> P3L c nid (get_ts s t) -> restart_known c s = false ->
+  TInv c nid (get_ts s t) -> P3L c nid (get_ts s t) -> id_drift c s = false ->
+  (forall p, ts_index (get_ts s t) = Some p -> stale_p (memne (get_ts s t)) p = false) ->
   stream (get_ts (reopen c s) t) = stream (get_ts s t) /\
   (exists pre, unread c (nrm x (get_ts (reopen c s) t)) = pre ++ unread c (get_ts s t)) /\
   (exists k, unread c (nrm x (get_ts (reopen c s) t)) = skipn k (stream (get_ts s t))).
 Proof.
-  intros Hc Hd Hb Hl Hti Hp3 Hk. pose proof Hc as (Hh & Hb0 & _).
-  apply orb_false_iff in Hk. destruct Hk as (Hdrift & Hstale).
+  intros Hc Hd Hb Hl Hti Hp3 Hdrift Hstale. pose proof Hc as (Hh & Hb0 & _).
   pose proof (reopen_stream c s Hc Hd t) as Hst. split; [exact Hst|].
   pose proof (di_wf _ _ _ _ _ _ Hd) as Hwf.
   destruct (reopen_shape c s t Hh Hb0 Hwf) as (S1 & S2 & S3 & S4 & S5 & S6 & Hcase). cbn zeta in *.
@@ -100,7 +100,7 @@ Proof.
       { unfold unread. rewrite S1. cbn [mk_reader r_idx r_off r_chain startup_cursor fst snd skipn]. rewrite S3.
         destruct rch as [|b0 r0]; [reflexivity|]. rewrite Hwe, app_nil_r, ents_from_0. reflexivity. }
       rewrite Hnrm, Hun', Hstream. destruct Hp3 as (_ & Hp3). rewrite Eidx in Hp3. split; [exact Hp3|exists 0%nat; reflexivity]. }
-  assert (Hns : stale_p (memne ts) p = false) by (rewrite Hold in *; eapply nostale; eauto).
+  assert (Hns : stale_p (memne ts) p = false) by (apply Hstale; reflexivity).
   destruct (P3L_lag c nid ts p Hti Hp3 Eidx Hns) as (j & b & pre & Hbj & Hpos & Hok & Hfrom).
   destruct (nth_error_map_eq b_ents _ _ j b (eq_sym Hents) Hbj) as (b' & Hb' & He').
   destruct (nth_error_map_eq b_id _ _ j b (eq_sym Hids) Hbj) as (b'' & Hb'' & Hi').
@@ -116,3 +116,22 @@ Proof.
   - exists pre. rewrite <- Hfrom. now apply from_ents_eq.
   - destruct (from_suffix c Hh rch j b' (p_off p) Hb' Hok') as (k & Hk). exists k. now rewrite Hk, Hstream.
 Qed.
+
+(* a lagging position names a block that holds entries *)
+Lemma PLag_nonstale c T p : PLag c T p -> stale_p (memne T) p = false.
+Proof.
+  intros (j & b & pre & Hb & Hpos & _). unfold stale_p. destruct (p_tail p); [|reflexivity]. cbn [andb].
+  apply negb_false_iff, existsb_exists. exists b. split; [eapply nth_error_In; eauto|lia].
+Qed.
+
+Lemma PLag_suffix c T T' p d : chain_of T' = chain_of T -> ts_writer T' = ts_writer T ->
+  unread c T = d ++ unread c T' -> PLag c T p -> PLag c T' p.
+Proof.
+  intros Hc Hw Hu (j & b & pre & A1 & A2 & A3 & A4).
+  assert (Hwl : w_list T' = w_list T) by (unfold w_list; now rewrite Hw).
+  assert (Hm : memne T' = memne T) by (unfold memne; now rewrite Hc, Hwl).
+  exists j, b, (pre ++ d). rewrite Hm, Hc, A4, Hu, app_assoc. auto.
+Qed.
+
+Lemma PGood_PLag c T p : PGood c T p -> PLag c T p.
+Proof. intros (j & b & A1 & A2 & A3 & A4). exists j, b, []. rewrite <- A4. auto. Qed.
